@@ -128,4 +128,5 @@ func registerAll() {
 	registerC10()
 	registerC08()
 	registerC09()
+	registerC15()
 }
